@@ -261,7 +261,8 @@ def goSuccess : Ending → Bool
 
 /-- `err := e.cmd.Run()`: `exec.Cmd.Wait` returns an `*exec.ExitError` exactly when
 `!state.Success()` (errors of starting the process and of copying its output are not modelled: the
-generated hook file is executable and writes nothing to stdout/stderr) -/
+generated hook file is executable; what it prints on stdout / stderr — the harness makes it print
+there — only words the error) -/
 def cmdRunErr (e : Ending) : Bool := !goSuccess e
 
 /-- `Executor.RunAndLogLines` returns an error exactly when `cmd.Run` did (`if err != nil`), and
